@@ -537,6 +537,17 @@ public:
     // references to locals declared outside every loop, in Task::execute overrides (scratch state carried
     // from one index to the next)
     bool VisitDeclRefExpr(DeclRefExpr *DR) {
+      // writes to objects with static storage duration (globals, static members, function-local statics): state that every
+      // thread running this function shares
+      if (auto *SV = dyn_cast<VarDecl>(DR->getDecl())) if (SV->hasGlobalStorage() && !SV->getType().isConstQualified() && !SV->getType()->isReferenceType()) {
+        std::vector<Use> us; A.classify(DR, us, 0);
+        std::string how; bool w = false;
+        for (auto &u : us) if (u.kind == "write" || u.kind == "escape") { w = true; how = u.kind + ":" + u.how; break; }
+        if (w) {
+          json::Object o{{"k", "staticw"}, {"name", SV->getQualifiedNameAsString()}, {"how", how}, {"local", SV->isStaticLocal()}, {"type", SV->getType().getAsString()}};
+          base(o, DR); Ev.push_back(std::move(o));
+        }
+      }
       if (!A.TaskExecute) return true;
       auto *VD = dyn_cast<VarDecl>(DR->getDecl());
       if (!VD || !VD->isLocalVarDecl() || isa<ParmVarDecl>(VD)) return true;
